@@ -13,6 +13,7 @@
 (* nesting like any other: its members are the leaves).                      *)
 (***************************************************************************)
 EXTENDS Integers, Sequences, FiniteSets
+CONSTANT Variant        \* "code": the algorithm of the library; "outer": a seeded design error of _simplify (see Unwrap)
 
 Leaf(v) == [t |-> "leaf", v |-> v, items |-> <<>>, keys |-> <<>>, vals |-> <<>>]
 Tup(items) == [t |-> "tup", v |-> <<>>, items |-> items, keys |-> <<>>, vals |-> <<>>]
@@ -71,9 +72,19 @@ Shape(n) == MapTree(LAMBDA v : <<>>, n)
 HasRootOnly(n) == n.t = "st" /\ n.keys = <<"root">>
 RECURSIVE Unwrap(_)
 Unwrap(n) == IF HasRootOnly(n) /\ n.vals[1].t # "tup" THEN Unwrap(n.vals[1]) ELSE n
+\* Variant = "outer": seeded design error that TLC must refute on the wrapper family of MC_Structured: the loop that strips
+\* trivial wrappers keeps testing the object `_simplify` was called on ("has *it* no structure?") instead of the object it has
+\* descended to, so below one trivial wrapper it walks on through every root - also the root of a Structured that has further
+\* keys, or whose root is a tuple - and the leaves beside that root are lost (SimplifyLeafPreserving fails).
+HasRoot(n) == n.t = "st" /\ \E i \in DOMAIN n.keys : n.keys[i] = "root"
+RootOf(n) == n.vals[CHOOSE i \in DOMAIN n.keys : n.keys[i] = "root"]
+HasStructure(n) == n.keys # <<"root">> \/ RootOf(n).t = "tup"           \* _has_keys or a tuple root
+RECURSIVE UnwrapOuter(_, _)
+UnwrapOuter(self, cur) == IF HasRoot(cur) /\ ~HasStructure(self) THEN UnwrapOuter(self, RootOf(cur)) ELSE cur
+UnwrapSel(n) == IF Variant = "outer" /\ n.t = "st" THEN UnwrapOuter(n, n) ELSE Unwrap(n)
 RECURSIVE Simplify(_)
 Simplify(n) ==
-  LET u == Unwrap(n) IN
+  LET u == UnwrapSel(n) IN
   CASE u.t = "st"  -> St(u.keys, [i \in DOMAIN u.vals |-> Simplify(u.vals[i])])
     [] u.t = "tup" -> Tup([i \in DOMAIN u.items |-> Simplify(u.items[i])])
     [] OTHER -> u
